@@ -344,3 +344,109 @@ func (c *controller) probeLockHeld(holder *thread, point string, other *thread) 
 	}
 	return blocked, nil
 }
+
+// inTurnstile reports whether the goroutine is waiting in resource.(*turnstile).enter
+func inTurnstile(gid int64) bool {
+	var n int
+	for {
+		n = runtime.Stack(stackBuf, true)
+		if n < len(stackBuf) {
+			break
+		}
+		stackBuf = make([]byte, 2*len(stackBuf))
+	}
+	head := []byte(fmt.Sprintf("goroutine %d [", gid))
+	for _, b := range bytes.Split(stackBuf[:n], []byte("\n\n")) {
+		if bytes.HasPrefix(b, head) {
+			return bytes.Contains(b, []byte("resource.(*turnstile).enter"))
+		}
+	}
+	return false
+}
+
+// probeTurnstile: `first` is parked at its *.publish holding the earlier commit; `second` (parked at its
+// *.publish with a later commit, or a Delete about to commit) is released.  It must not get past the
+// turnstile until `first` has published: blocked = every goroutine came to rest with `second` waiting in
+// turnstile.enter (read from the goroutine wait states, not from the clock).  Then `first` is released; it
+// must be able to publish although `second` may be holding the collection's write lock, after which
+// `second` completes its step.  If `second` was not kept back, it has completed its step before `first`.
+func (c *controller) probeTurnstile(first, second *thread) (blocked bool, err error) {
+	second.resume <- struct{}{}
+	second.steps++
+	secondDone := false
+	start := time.Now()
+	for !secondDone && !blocked {
+		select {
+		case p := <-second.park:
+			second.at, secondDone = p, true
+		case <-second.done:
+			second.ended, secondDone = true, true
+		case <-time.After(2 * time.Millisecond):
+			if stuck(start) {
+				select {
+				case p := <-second.park:
+					second.at, secondDone = p, true
+				case <-second.done:
+					second.ended, secondDone = true, true
+				default:
+					if !inTurnstile(second.gid) {
+						return false, fmt.Errorf("the released thread is blocked, but not in the turnstile (last at %q)", second.at)
+					}
+					blocked = true
+				}
+			} else if time.Since(start) > stepTimeout {
+				return false, fmt.Errorf("the released thread made no progress within %v", stepTimeout)
+			}
+		}
+	}
+	// the earlier commit goes on, up to the inside of its Send (it has passed the turnstile, has copied the
+	// listener list and has delivered nothing yet): the later one must STILL be waiting -- the turnstile is
+	// held until the publication has been delivered, not merely until it has been entered
+	first.extra.Store("bus.send.snapshot")
+	first.resume <- struct{}{}
+	first.steps++
+	p, ended, err := awaitPark(first.park, first.done)
+	first.extra.Store("")
+	if err != nil {
+		return blocked, fmt.Errorf("the earlier commit could not publish while the later one was waiting: %v", err)
+	}
+	if !ended && p == "bus.send.snapshot" {
+		if !secondDone {
+			if err := settle(); err != nil {
+				return blocked, err
+			}
+			select {
+			case p2 := <-second.park:
+				second.at, secondDone, blocked = p2, true, false
+			case <-second.done:
+				second.ended, secondDone, blocked = true, true, false
+			default:
+				if !inTurnstile(second.gid) {
+					return false, fmt.Errorf("the released thread is blocked, but not in the turnstile (last at %q)", second.at)
+				}
+			}
+		}
+		first.resume <- struct{}{}
+		p, ended, err = awaitPark(first.park, first.done)
+		if err != nil {
+			return blocked, fmt.Errorf("the earlier commit could not finish its publication: %v", err)
+		}
+	}
+	if ended {
+		first.ended = true
+	} else {
+		first.at = p
+	}
+	if !secondDone {
+		p, ended, err := awaitPark(second.park, second.done)
+		if err != nil {
+			return blocked, fmt.Errorf("the thread waiting in the turnstile did not resume after the earlier commit had published: %v", err)
+		}
+		if ended {
+			second.ended = true
+		} else {
+			second.at = p
+		}
+	}
+	return blocked, nil
+}
